@@ -102,7 +102,7 @@ Section Loops.
   Theorem addgrow_loop_terminates_agrees ht cnt nc nl : 0 <= nl <= 63 ->
     match AL Gen_HashSetGrow.fuel_of_pvAddGrow ht cnt nc nl with
     | Ok (None, (c', nl')) => reserve_log calcCapacity 64 nl (cnt + 1) = Some nl' /\ c' = calcCapacity (2 ^ nl')
-    | Exn => True
+    | Exn => forall j, nl <= j <= 63 -> calcCapacity (2 ^ j) < cnt + 1      (* length_error only when NO table size up to 2^63 buckets has room *)
     | _ => False
     end.
   Proof.
@@ -110,5 +110,23 @@ Section Loops.
     assert (Hf : (64 - Z.to_nat nl <= Gen_HashSetGrow.fuel_of_pvAddGrow)%nat) by (unfold Gen_HashSetGrow.fuel_of_pvAddGrow; lia).
     specialize (S Hf). destruct (AL Gen_HashSetGrow.fuel_of_pvAddGrow ht cnt nc nl) as [[[u|] [c' nl']]| | |]; auto.
     destruct S as [A [C [D F]]]. split; auto. apply reserve_log_first; auto; lia.
+  Qed.
+  (* Reserve throws length_error only when no table size up to 2^63 buckets reaches the requested capacity *)
+  Theorem reserve_loop_exn cap ht nc nl : 0 <= nl <= 63 ->
+    RL Gen_HashSetGrow.fuel_of_Reserve cap ht nc nl = Exn -> forall j, nl <= j <= 63 -> calcCapacity (2 ^ j) < cap.
+  Proof.
+    intros H E. pose proof (reserve_loop_spec Gen_HashSetGrow.fuel_of_Reserve cap ht nc nl H) as S.
+    assert (Hf : (64 - Z.to_nat nl <= Gen_HashSetGrow.fuel_of_Reserve)%nat) by (unfold Gen_HashSetGrow.fuel_of_Reserve; lia).
+    specialize (S Hf). rewrite E in S. exact S.
+  Qed.
+
+  (* the hand model's reserve_log answers None only when none of the sizes nl .. nl + fuel has room (it is not a fuel artefact:
+     with fuel 64 these are all sizes a size_t bucket count can have) *)
+  Theorem reserve_log_none : forall fuel nl n, reserve_log calcCapacity fuel nl n = None ->
+    forall j, nl <= j <= nl + Z.of_nat fuel -> calcCapacity (2 ^ j) < n.
+  Proof.
+    induction fuel; intros nl n H j Hj; simpl in H; destruct (Z.leb_spec n (calcCapacity (2 ^ nl))) as [L|L]; try discriminate.
+    - replace j with nl by lia. exact L.
+    - destruct (Z.eq_dec j nl) as [->|Hne]; [exact L|]. apply (IHfuel (nl + 1) n H). lia.
   Qed.
 End Loops.
